@@ -106,6 +106,13 @@ def reducer {α : Type} (op : α → α → α) (init : Option α) (n : Nat) (el
     if n = 0 then none
     else some ((List.range' 1 (n-1)).foldl (fun acc i => op acc (elem i)) (elem 0))
 
+/-- `unwrap(view::flatten(x))` followed by `reducer_t`, for an `x` of `n` elements (`elem` = its elements in C order).
+    `view::flatten(x)` is `view::reshape(x, [n])` and `index::shape_reshape` refuses a zero extent, so for `n = 0`
+    (some reduced axis has extent 0) the optional is empty and `unwrap` dereferences it: assert / UB (`none`), with or
+    without an initial value (known finding `reduce.empty-fold`; NumPy: the initial value, else the identity). -/
+def flattenReduce {α : Type} (op : α → α → α) (init : Option α) (n : Nat) (elem : Nat → α) : Option α :=
+  if n = 0 then none else reducer op init n elem
+
 /-- element of `flatten(apply_slice(array, sl))` at flat position `k` -/
 def slicedFlatElem {α : Type} (a : Arr α) (sl : List (Nat × Nat)) (k : Nat) : α :=
   a.get (sliceIndex sl (ndindex (sliceShape sl) k))
@@ -115,11 +122,11 @@ def slicedFlatElem {α : Type} (a : Arr α) (sl : List (Nat × Nat)) (k : Nat) :
 def reduceElem {α : Type} (op : α → α → α) (init : Option α) (a : Arr α) (axis : AxisArg) (keep : Bool)
     (d : Idx) : Option α :=
   match axis with
-  | none => reducer op init (prod a.shape) (fun k => a.get (ndindex a.shape k))
+  | none => flattenReduce op init (prod a.shape) (fun k => a.get (ndindex a.shape k))
   | some _ =>
     match reductionSlices d a.shape axis keep with
     | none => none
-    | some sl => reducer op init (prod (sliceShape sl)) (slicedFlatElem a sl)
+    | some sl => flattenReduce op init (prod (sliceShape sl)) (slicedFlatElem a sl)
 
 /-- the reduce view: shape (`none` = UB while computing it) and element function (`none` = UB) -/
 def reduce {α : Type} (op : α → α → α) (init : Option α) (a : Arr α) (axis : AxisArg) (keep : Bool) :
@@ -142,7 +149,7 @@ def accumulateSlices (axis : Int) (d : Idx) : Nat → Shape → Option (List (Na
 def accumulateElem {α : Type} (op : α → α → α) (a : Arr α) (axis : Int) (d : Idx) : Option α :=
   match accumulateSlices (accumulateAxis a.shape.length axis) d 0 a.shape with
   | none => none
-  | some sl => reducer op none (prod (sliceShape sl)) (slicedFlatElem a sl)
+  | some sl => flattenReduce op none (prod (sliceShape sl)) (slicedFlatElem a sl)
 
 /-- the accumulate view: source shape, running fold per element -/
 def accumulate {α : Type} (op : α → α → α) (a : Arr α) (axis : Int) : Arr (Option α) :=
@@ -236,6 +243,19 @@ def ValidAxes (ndim : Nat) : AxisArg → Prop
 instance (ndim : Nat) (ax : AxisArg) : Decidable (ValidAxes ndim ax) := by
   unfold ValidAxes; cases ax <;> exact inferInstance
 
+/-- every reduced axis has a positive extent (the other extents are unconstrained: they may be 0) -/
+def PosAxes (s : Shape) (R : List Nat) : Prop := ∀ k ∈ R, ∀ e, s[k]? = some e → 0 < e
+
+instance (s : Shape) (R : List Nat) : Decidable (PosAxes s R) :=
+  decidable_of_iff (∀ k ∈ R, (s[k]?).all (0 < ·) = true) (by
+    unfold PosAxes
+    constructor
+    · intro h k hk e he; have := h k hk; rw [he] at this; simpa using this
+    · intro h k hk
+      cases he : s[k]? with
+      | none => rfl
+      | some e => simpa using h k hk e he)
+
 /-- NumPy result shape of a reduction over the axis set `R` -/
 def specShape (s : Shape) (R : List Nat) (keep : Bool) : Shape :=
   if keep then s.zipIdx.map (fun q => if q.2 ∈ R then 1 else q.1)
@@ -252,6 +272,12 @@ def foldFirst {α : Type} (op : α → α → α) : Option α → List α → Op
   | some i0, xs => some (xs.foldl op i0)
   | none, x :: xs => some (xs.foldl op x)
   | none, [] => none
+
+/-- what the code computes from the addressed elements: `foldFirst` of a non-empty list; `none` (UB) on the empty
+    list whatever `init` is (see `flattenReduce`) -/
+def foldFirstNE {α : Type} (op : α → α → α) (init : Option α) : List α → Option α
+  | [] => none
+  | x :: xs => foldFirst op init (x :: xs)
 
 /-- the source multi-indices feeding result index `j`, in increasing C order -/
 def addressed (s : Shape) (R : List Nat) (keep : Bool) (j : Idx) : List Idx :=
